@@ -217,6 +217,50 @@ def h_call_sync(t, part):
     return None
 
 
+def h_call_early(t, part):
+    """threaded: the acknowledgement is handled (by another thread) before emit() has returned to call()"""
+    with notrace():
+        w, live = build(False)
+    e, ns = 'e0', NSS[t.choice(2)]
+    sid = live[(e, ns)]
+    nargs = t.choice(3)
+    data = [t.int(-2, 2) for _ in range(nargs)]
+    early = t.bool()
+    state = {'done': False}
+
+    def on_send(eio_sid, frame):
+        if state['done'] or eio_sid != e or not isinstance(frame, str) or not early:
+            return
+        p = w.P(encoded_packet=frame)
+        if p.packet_type == packet.EVENT and p.id is not None:
+            state['done'] = True
+            w.send(e, w.P(packet.ACK, data=data, namespace=ns, id=p.id))
+    w.eio.on_send = on_send
+
+    def hook(ev, timeout):
+        if not early and not state['done']:
+            pk = [p for p in w.take(e) if not isinstance(p, tuple) and p.packet_type == packet.EVENT]
+            if pk:
+                state['done'] = True
+                w.send(e, w.P(packet.ACK, data=data, namespace=ns, id=pk[0].id))
+    waithook.HOOK[0] = hook
+    try:
+        try:
+            r = ('ok', w.s.call('q', 5, to=sid, namespace=ns, timeout=3))
+        except exceptions.TimeoutError:
+            r = ('timeout',)
+    finally:
+        waithook.HOOK[0] = None
+        w.eio.on_send = None
+    t.reached('call')
+    if w.eio.contained:
+        return Fail('call:exception:%s' % type(w.eio.contained[0][1]).__name__, repr(w.eio.contained[0]))
+    exp = None if len(data) == 0 else data[0] if len(data) == 1 else tuple(data)
+    if r[0] != 'ok' or not (r[1] == exp):
+        return Fail('call:result:%s' % ('early-ack' if early else 'ack-during-wait'), 'acked %r, call gave %r' % (data, r))
+    return None
+
+
 def h_call_async(t, part):
     with notrace():
         w, live = build(True, chooser=None)
@@ -281,9 +325,10 @@ def hist_parts(tier):
 
 
 CHECKS = [
-    dict(name='history', fn=h_hist, parts=hist_parts, budget={'quick': 70, 'thorough': 900}, per_path_s=20),
-    dict(name='call-threaded', fn=h_call_sync, parts=[{}], budget={'quick': 40, 'thorough': 120}),
-    dict(name='call-asyncio', fn=h_call_async, parts=[{}], budget={'quick': 40, 'thorough': 120}),
+    dict(name='history', fn=h_hist, parts=hist_parts, budget={'quick': 180, 'thorough': 900}, per_path_s=20),
+    dict(name='call-threaded', fn=h_call_sync, parts=[{}], budget={'quick': 180, 'thorough': 120}),
+    dict(name='call-asyncio', fn=h_call_async, parts=[{}], budget={'quick': 180, 'thorough': 120}),
+    dict(name='call-early-ack', fn=h_call_early, parts=[{}], budget={'quick': 180, 'thorough': 120}),
 ]
 
 META = dict(
